@@ -8,7 +8,7 @@ reg("C15",
     quick=dict(defs=dict(MODE=0, NCYC=3, DMAX=2, TSCHED=1), symx=dict(shards=16, **{"max-wall": 900})),
     thorough=dict(defs=dict(MODE=0, NCYC=4, DMAX=3, TSCHED=2), symx=dict(shards=16, **{"max-wall": 3000, "shard-depth": 8})),
     reach=["end", "no_throw", "throw", "throw_in_first_cycle", "throw_in_consecutive_evaluations", "normal_evaluation_after_throw",
-           "thrower_woken_by_own_schedule", "two_nodes_throw", "two_nodes_throw_in_same_cycle"],
+           "thrower_woken_by_own_schedule", "throw_while_own_wakeup_pending", "two_nodes_throw", "two_nodes_throw_in_same_cycle"],
     bounds="per-node capture (Wiring::activate_error_capture via exception_time_series): src -> T (capturing compute node that also self-schedules) -> "
            "dependent sink, error_output(T) -> error sink; S (capturing self-scheduling SOURCE node) -> dependent sink, error_output(S) -> error sink; "
            "src -> independent node (wired after T and S) -> sink. NCYC source cycles; payloads symbolic in [-1000,1000]; all cycle deltas symbolic in "
@@ -23,7 +23,8 @@ reg("C15",
     anchor_files=["src/hgraph/runtime/try_except_node.cpp", "src/hgraph/runtime/graph.cpp", "src/hgraph/runtime/node_error.cpp", "src/hgraph/runtime/nested_graph_node.cpp"],
     quick=dict(defs=dict(MODE=1, NCYC=3, DMAX=2, TSCHED=1), symx=dict(shards=16, **{"max-wall": 900})),
     thorough=dict(defs=dict(MODE=1, NCYC=4, DMAX=3, TSCHED=2), symx=dict(shards=16, **{"max-wall": 3000, "shard-depth": 8})),
-    reach=["end", "no_throw", "throw", "throw_in_first_cycle", "throw_in_consecutive_evaluations", "normal_evaluation_after_throw", "thrower_woken_by_own_schedule"],
+    reach=["end", "no_throw", "throw", "throw_in_first_cycle", "throw_in_consecutive_evaluations", "normal_evaluation_after_throw", "thrower_woken_by_own_schedule",
+           "throw_while_own_wakeup_pending"],
     bounds="try_except over a sub-graph, wired by the real wire_try_except (higher_order_impl.h) with a hand-made WiredFn -> try_except_node: "
            "src -> try_except( pre -> T -> post ) -> out sink / exception sink, src -> independent node -> sink. T throws in a symbolic subset of its "
            "evaluations and may self-schedule (as in C15_capture); NCYC source cycles, payloads / deltas symbolic; faulty run and fault-free twin in one path",
